@@ -172,6 +172,27 @@ theorem run_all_final_message_last (stdin : Bool) (cms : List (CreateMsg × Scri
   rw [runAll_msgs stdin cms s id sc hnd h0 hmem]
   exact final_message_last stdin id sc s hlog
 
+/-- **The gRPC forwarding loop drains the stream whatever `Send` returns**: every message produced
+by the workers is consumed (delivered or logged as unsent), in order — so all workers run to
+their deferred removal and commit, and `run_all_clean` / `run_all_wal_committed` apply to
+run-and-wait through the RPC layer with a client that disappears at any point. -/
+theorem rpc_forward_drains (send : Msg → Bool) (ms : List Msg) :
+    (rpcForward send ms).1.length + (rpcForward send ms).2.length = ms.length ∧
+    (rpcForward send ms).1 = ms.filter send ∧ (rpcForward send ms).2 = ms.filter (fun m => !send m) := by
+  induction ms with
+  | nil => exact ⟨rfl, rfl, rfl⟩
+  | cons m rest ih =>
+    obtain ⟨h1, h2, h3⟩ := ih
+    cases hs : send m
+    · refine ⟨?_, ?_, ?_⟩
+      · simp only [rpcForward, hs, Bool.false_eq_true, if_false, List.length_cons]; omega
+      · simp [rpcForward, hs, h2]
+      · simp [rpcForward, hs, h3]
+    · refine ⟨?_, ?_, ?_⟩
+      · simp only [rpcForward, hs, if_true, List.length_cons]; omega
+      · simp [rpcForward, hs, h2]
+      · simp [rpcForward, hs, h3]
+
 /-- Observation outside the quantifier of C30: if `wal.Log(create-lambda)` itself fails, the
 worker returns before the removal is installed — the workload stays. -/
 theorem unlogged_not_removed (stdin : Bool) (id : Nat) (sc : Script) (s : LSt R) (hlog : sc.walLog = false) :
